@@ -226,6 +226,4 @@ def run(ctx):
 
 
 def replay(ctx, path):
-    import json
-    print(json.dumps(json.load(open(path)), indent=1)[:6000])
-    return 0
+    return C.replay_generic(path)
